@@ -112,11 +112,15 @@ class Event:
             return "drop[%s: %s]" % (show(self.place), self.ty)
         if self.kind in ("enter", "leave"):
             return "%s[%s]" % (self.kind, self.target)
+        if self.kind == "bb":
+            return "bb%d" % self.bb
+        if self.kind == "agg":
+            return "agg[%s]" % show(self.value)
         return "%s[%s]" % (self.kind, self.data)
 
 
 class Path:
-    __slots__ = ("events", "exit", "ret", "blocks", "body")
+    __slots__ = ("events", "exit", "ret", "blocks", "body", "env")
 
     def __init__(self, body, events, exit, ret, blocks):
         self.body = body
@@ -238,8 +242,9 @@ class Exec:
     """Symbolic path enumerator for one root body (with inlining of directly called closures
     and of the functions named in `inline`)."""
 
-    def __init__(self, prog, inline=(), models=True, max_paths=MAX_PATHS, pure=None):
+    def __init__(self, prog, inline=(), models=True, max_paths=MAX_PATHS, pure=None, unroll=1):
         self.prog = prog
+        self.unroll = unroll
         self.inline = set(inline)
         self.models = models
         self.max_paths = max_paths
@@ -256,19 +261,30 @@ class Exec:
         out = []
         st = _State(dict(args), 0, [], {}, ())
         for (st2, exit, ret) in self._run(body, st, 0, frozenset(), ()):
-            out.append(Path(body, st2.events, exit, ret, st2.trace))
+            pa = Path(body, st2.events, exit, ret, st2.trace)
+            pa.env = st2.env
+            out.append(pa)
         return out
 
     # -------------------------------------------------------------- core
     def _run(self, body, st, bb, onpath, frame):
         """Generator of (state, exit, ret_term) for all paths from block bb."""
         while True:
-            if bb in onpath:
-                self._count()
-                yield (st, ("retry", bb), None)
-                return
-            onpath = onpath | {bb}
+            if self.unroll <= 1:
+                if bb in onpath:
+                    self._count()
+                    yield (st, ("retry", bb), None)
+                    return
+                onpath = onpath | {bb}
+            else:
+                n = sum(1 for x in onpath if x[0] == bb)
+                if n >= self.unroll:
+                    self._count()
+                    yield (st, ("retry", bb), None)
+                    return
+                onpath = onpath | {(bb, n)}
             st.trace = st.trace + ((body.name, bb),) if not frame else st.trace
+            st.events.append(Event("bb", bb, frame, body))
             blk = body.blocks[bb]
             for si, stmt in enumerate(blk["stmts"]):
                 self._stmt(body, st, bb, si, stmt, frame)
@@ -358,6 +374,10 @@ class Exec:
                 key = key[2]
                 neg = not neg
         known = st.known.get(key)
+        if known is None and is_bool:
+            rv = _range_eval(st, key)
+            if rv is not None:
+                known = rv
         cands = []
         for v, bb in vals:
             cands.append((bb, v))
@@ -397,6 +417,8 @@ class Exec:
                 key = key[2]
                 v = 1 - v
         st.known[key] = v
+        if isinstance(v, int):
+            _range_update(st, key, v)
         sp = t.get("span") or {}
         st.events.append(Event("cond", bb, frame, body, term=key, value=v, exp=bool(sp.get("exp")), span=sp,
                                is_bool=self._is_bool(d, body, t)))
@@ -406,6 +428,10 @@ class Exec:
         k = stmt["k"]
         if k == "assign":
             val = self._rvalue(body, st, stmt["rv"], bb)
+            rv = stmt["rv"]
+            if rv["k"] == "aggregate" and rv.get("agg") == "adt" and not rv["adt"].startswith("std::") \
+                    and not rv["adt"].startswith("core::") and not rv["adt"].startswith("atomic::"):
+                st.events.append(Event("agg", bb, frame, body, adt=rv["adt"], value=val, span=stmt.get("span")))
             self._write_place(body, st, stmt["place"], val, bb, frame, stmt.get("span"))
         elif k == "set_discriminant":
             pass
@@ -519,6 +545,11 @@ class Exec:
                 # passed to pure callees; &mut locals are havocked at the call)
                 return ("ref", st.env.get(p["local"], ("local", body.name, p["local"], body.local_name(p["local"]))),
                         ("local", p["local"]) )
+            if p["proj"] == ["deref"]:
+                # reborrow `&*q` / `&mut *q`: the same pointer value
+                q = st.env.get(p["local"])
+                if isinstance(q, tuple) and q[0] == "ref":
+                    return q
             return ("ref", self._place_term(body, st, p, addr=True))
         if k == "cast":
             x = self._operand(body, st, rv["op"])
@@ -676,6 +707,97 @@ class Exec:
             yield (st4, ex, ret)
 
 
+_UNSIGNED = ("usize", "u8", "u16", "u32", "u64", "u128")
+INF = float("inf")
+
+
+def _cmp_parts(key):
+    """('bin', op, X, const) -> (op, X, c, unsigned) with the constant on the right."""
+    if not (isinstance(key, tuple) and key[0] == "bin" and key[1] in ("Eq", "Ne", "Lt", "Le", "Gt", "Ge")):
+        return None
+    op, l, r = key[1], key[2], key[3]
+    flip = {"Eq": "Eq", "Ne": "Ne", "Lt": "Gt", "Le": "Ge", "Gt": "Lt", "Ge": "Le"}
+    if isinstance(r, tuple) and r[0] == "c" and isinstance(r[1], int):
+        return (op, l, r[1], r[2] in _UNSIGNED)
+    if isinstance(l, tuple) and l[0] == "c" and isinstance(l[1], int):
+        return (flip[op], r, l[1], l[2] in _UNSIGNED)
+    return None
+
+
+def _range_of(st, x, unsigned):
+    lo, hi, ne = st.ranges.get(x, (0 if unsigned else -INF, INF, frozenset()))
+    return lo, hi, ne
+
+
+def _range_eval(st, key):
+    """Decide a comparison against a constant from the interval known for its left side."""
+    cp = _cmp_parts(key)
+    if cp is None:
+        return None
+    op, x, c, uns = cp
+    if x not in st.ranges and not uns:
+        return None
+    lo, hi, ne = _range_of(st, x, uns)
+    if op == "Eq":
+        if c < lo or c > hi or c in ne:
+            return 0
+        if lo == hi == c:
+            return 1
+    elif op == "Ne":
+        if c < lo or c > hi or c in ne:
+            return 1
+        if lo == hi == c:
+            return 0
+    elif op == "Lt":
+        if hi < c:
+            return 1
+        if lo >= c:
+            return 0
+    elif op == "Le":
+        if hi <= c:
+            return 1
+        if lo > c:
+            return 0
+    elif op == "Gt":
+        if lo > c:
+            return 1
+        if hi <= c:
+            return 0
+    elif op == "Ge":
+        if lo >= c:
+            return 1
+        if hi < c:
+            return 0
+    return None
+
+
+def _range_update(st, key, v):
+    cp = _cmp_parts(key)
+    if cp is None:
+        return
+    op, x, c, uns = cp
+    lo, hi, ne = _range_of(st, x, uns)
+    if v == 0:
+        op = {"Eq": "Ne", "Ne": "Eq", "Lt": "Ge", "Le": "Gt", "Gt": "Le", "Ge": "Lt"}[op]
+    if op == "Eq":
+        lo, hi = max(lo, c), min(hi, c)
+    elif op == "Ne":
+        ne = ne | {c}
+        if lo == c:
+            lo = c + 1
+        if hi == c:
+            hi = c - 1
+    elif op == "Lt":
+        hi = min(hi, c - 1)
+    elif op == "Le":
+        hi = min(hi, c)
+    elif op == "Gt":
+        lo = max(lo, c + 1)
+    elif op == "Ge":
+        lo = max(lo, c)
+    st.ranges[x] = (lo, hi, ne)
+
+
 def _consistent(known, v):
     if isinstance(known, int) and isinstance(v, int):
         return known == v
@@ -770,18 +892,20 @@ def _binop(op, l, r):
 
 
 class _State:
-    __slots__ = ("env", "memver", "events", "known", "trace", "env_stack")
+    __slots__ = ("env", "memver", "events", "known", "trace", "env_stack", "ranges")
 
-    def __init__(self, env, memver, events, known, trace):
+    def __init__(self, env, memver, events, known, trace, ranges=None):
         self.env = env
         self.memver = memver
         self.events = events
         self.known = known
         self.trace = trace
         self.env_stack = None
+        self.ranges = ranges if ranges is not None else {}
 
     def fork(self):
-        return _State(dict(self.env), self.memver, list(self.events), dict(self.known), self.trace)
+        return _State(dict(self.env), self.memver, list(self.events), dict(self.known), self.trace,
+                      dict(self.ranges))
 
 
 # ------------------------------------------------------------------ purity of local functions
@@ -994,5 +1118,5 @@ HIGHER_ORDER = {
     "std::result::Result::map": _mk_map("map"),
     "std::result::Result::map_err": _mk_map("map_err"),
     "std::array::from_fn": _model_repeat_n,
-    "std::array::<impl [T; N]>::map": _model_repeat_n,
+    "std::array::map": _model_repeat_n,
 }
